@@ -7,7 +7,9 @@
          "dd" (the token "--")                  "lit" (a token after "--"; may look like a switch).
    The application is fixed (Cmd below): pkg <name> [rest..] [-o|--opt VALUE] [-f|--flag];  srv with the
    sub-commands add <host> [rest..] and list [rest..] [-a|--all] (list is srv's default sub-command);
-   top [rest..];  plus the built-in default command "help".  Every user command has the same handler: it writes one
+   top [rest..];  grp, a container WITHOUT a handler of its own, with the sub-command one [rest..];  lazy [rest..], whose
+   handler is built by a factory (set_handler(callable)) each time the configuration is asked for it;  plus the
+   built-in default command "help".  Every other user command has the same handler object: it writes one
    tagged line per verbosity level (tags 1..4 = NORMAL, VERBOSE, VERY_VERBOSE, DEBUG) to stdout and stderr, asks a
    ConfirmationQuestion (default yes, the input holds "n"), records what the IO says about itself, then returns 0
    (beh "ok"), returns 3 ("code") or raises ("raise").
@@ -53,14 +55,19 @@ StripLits(line) == SelectSeq(line, LAMBDA u : ~SwLit(u))
 HasSwLits(line) == \E i \in 1..Len(line) : SwLit(line[i])
 
 \* ------------------------------------------------------------------ the application
-CmdIds == {"pkg", "srv", "srv add", "srv list", "top", "help"}
+CmdIds == {"pkg", "srv", "srv add", "srv list", "top", "grp", "grp one", "lazy", "help"}
+\* handler: "object" (set_handler(instance)), "factory" (set_handler(callable)), "none" (nothing configured: the
+\* placeholder of the configuration has no handle method - running the command is an error)
 Cmd == [c \in CmdIds |->
-          CASE c = "pkg" -> [path |-> <<"pkg">>, dsub |-> ""]
-            [] c = "srv" -> [path |-> <<"srv">>, dsub |-> "srv list"]
-            [] c = "srv add" -> [path |-> <<"srv", "add">>, dsub |-> ""]
-            [] c = "srv list" -> [path |-> <<"srv", "list">>, dsub |-> ""]
-            [] c = "top" -> [path |-> <<"top">>, dsub |-> ""]
-            [] c = "help" -> [path |-> <<"help">>, dsub |-> ""]]
+          CASE c = "pkg" -> [path |-> <<"pkg">>, dsub |-> "", handler |-> "object"]
+            [] c = "srv" -> [path |-> <<"srv">>, dsub |-> "srv list", handler |-> "object"]
+            [] c = "srv add" -> [path |-> <<"srv", "add">>, dsub |-> "", handler |-> "object"]
+            [] c = "srv list" -> [path |-> <<"srv", "list">>, dsub |-> "", handler |-> "object"]
+            [] c = "top" -> [path |-> <<"top">>, dsub |-> "", handler |-> "object"]
+            [] c = "grp" -> [path |-> <<"grp">>, dsub |-> "", handler |-> "none"]
+            [] c = "grp one" -> [path |-> <<"grp", "one">>, dsub |-> "", handler |-> "object"]
+            [] c = "lazy" -> [path |-> <<"lazy">>, dsub |-> "", handler |-> "factory"]
+            [] c = "help" -> [path |-> <<"help">>, dsub |-> "", handler |-> "object"]]
 IsPrefix(a, b) == Len(a) <= Len(b) /\ SubSeq(b, 1, Len(a)) = a
 \* the deepest command whose path is spelled by the leading tokens ("" if the first one is no command)
 Walk(lead) == LET C == {c \in CmdIds : IsPrefix(Cmd[c].path, lead)}
@@ -111,7 +118,7 @@ S0(line, beh, streams) ==
   [line |-> line, beh |-> beh, streams |-> streams, pc |-> "create",
    io |-> [quiet |-> FALSE, level |-> 0, inter |-> TRUE, decoOut |-> FALSE, decoErr |-> FALSE],
    sel |-> "", status |-> -1, calls |-> <<>>, outTags |-> {}, errTags |-> {}, outB |-> FALSE, errB |-> FALSE,
-   page |-> "none", answer |-> "none", consumed |-> 0, seen |-> NoIO]
+   page |-> "none", answer |-> "none", consumed |-> 0, seen |-> NoIO, built |-> 0]
 
 Stage(s) ==
   CASE s.pc = "create" -> [s EXCEPT !.io = CreateIO(s.line, s.streams), !.pc = "preresolve"]
@@ -128,8 +135,11 @@ Stage(s) ==
          IF s.sel = "help"
          THEN [s EXCEPT !.page = IF s.io.quiet THEN "none" ELSE HelpPage(s.line), !.outB = ~s.io.quiet,
                         !.status = 0, !.pc = "done"]
+         \* Command._do_handle looks the handler up only now, after the PRE_HANDLE listeners: a command without one fails
+         \* here (AttributeError -> error report), a factory is called here
+         ELSE IF Cmd[s.sel].handler = "none" THEN [s EXCEPT !.page = IF s.io.quiet THEN "none" ELSE "other", !.pc = "report"]
          ELSE LET vis == IF s.io.quiet THEN {} ELSE 1..(s.io.level + 1)
-              IN [s EXCEPT !.calls = <<s.sel>>, !.outTags = vis, !.errTags = vis,
+              IN [s EXCEPT !.calls = <<s.sel>>, !.built = IF Cmd[s.sel].handler = "factory" THEN 1 ELSE 0, !.outTags = vis, !.errTags = vis,
                            !.outB = ~s.io.quiet, !.errB = ~s.io.quiet,
                            !.answer = IF s.io.inter THEN "typed" ELSE "default",
                            !.consumed = IF s.io.inter THEN 1 ELSE 0,
@@ -148,7 +158,7 @@ Esc(bytes, deco) == IF ~bytes THEN 0 ELSE IF deco THEN 2 ELSE 1        \* 0 noth
 ObsOf(s) == [status |-> s.status, calls |-> s.calls, outTags |-> s.outTags, errTags |-> s.errTags,
              outEsc |-> Esc(s.outB, s.io.decoOut), errEsc |-> Esc(s.errB, s.io.decoErr),
              io |-> s.seen, page |-> s.page, answer |-> s.answer, consumed |-> s.consumed,
-             args |-> IF s.calls # <<>> THEN Args(s.line) ELSE <<>>]
+             args |-> IF s.calls # <<>> THEN Args(s.line) ELSE <<>>, built |-> s.built]
 
 \* ================================================================== P-layer (o: observation with sets for the tags)
 \* "the quiet switch suppresses all output of the run including error reports"
